@@ -38,6 +38,7 @@ func (p *Ptr) extend(e PathElem) *Ptr {
 }
 
 type Cell struct {
+	fieldFresh map[string]*Term // freshness of containers stored into struct fields of this cell
 	id     int
 	name   string
 	sort   *Sort
@@ -62,6 +63,15 @@ type GVal struct {
 	Iter   *Cell // range iterator position cell
 	IterOf *GVal
 	Typ    types.Type
+	Wrapped *GVal // value wrapped by MakeInterface (for stdlib functions that write through it)
+	NilT    *Term // nil-ness of a slice view (nil pointer means "not nil")
+}
+
+func (v *GVal) viewNil() *Term {
+	if v.NilT != nil {
+		return v.NilT
+	}
+	return TFalse
 }
 
 type State struct {
@@ -139,6 +149,7 @@ type Exec struct {
 	noOverflowAssume bool
 	freshRefs map[*Term]bool
 	firstIter []*Term
+	sortFlag  *Term
 }
 
 type Frame struct {
@@ -408,7 +419,7 @@ func (fr *Frame) term(v *GVal) *Term {
 			base = w.SlArr(v.T)
 		}
 		if isZeroLit(v.Off) {
-			return w.MkSlice(es, base, v.Len, TFalse)
+			return w.MkSlice(es, base, v.Len, v.viewNil())
 		}
 		// shifted view: uninterpreted shift with element facts added lazily
 		sname := "shift_" + sortIdent(es)
